@@ -43,4 +43,32 @@ theorem filterMap_filter_pointwise {β γ : Type} (f f' : β → Option γ) (P :
       | true => simp [ih']
       | false => simp [ih']
 
+/-! ### glue: the regenerated region probe -/
+
+theorem probeOf_eq {px py org : Nat → Nat → Nat → Nat → Nat}
+    (hx : ∀ r c row0 col0, (px r c row0 col0 : Int) - (org r c row0 col0 : Int) = (col0 : Int) + c)
+    (hy : ∀ r c row0 col0, (py r c row0 col0 : Int) - (org r c row0 col0 : Int) = (row0 : Int) + r)
+    {fb : Box} {p : Px} (hp : p ∈ boxPx fb) : probeOf px py org fb p = ((p.2 : Int), (p.1 : Int)) := by
+  have h := mem_boxPx.1 hp
+  simp only [probeOf, hx, hy]
+  ext <;> simp only <;> omega
+
+theorem findRestrictedSky_eq {px py org : Nat → Nat → Nat → Nat → Nat}
+    (hx : ∀ r c row0 col0, (px r c row0 col0 : Int) - (org r c row0 col0 : Int) = (col0 : Int) + c)
+    (hy : ∀ r c row0 col0, (py r c row0 col0 : Int) - (org r c row0 col0 : Int) = (row0 : Int) + r)
+    (sky : Int × Int → Bool) (g : Grid) (lab : Px → Nat) (n : Nat) :
+    findRestrictedSky px py org sky g lab n = findRestricted g lab n (fun p => sky ((p.2 : Int), (p.1 : Int))) := by
+  unfold findRestrictedSky findRestricted findIslands islandOf
+  congr 1
+  funext k
+  congr 1
+  funext fb
+  have e : ((boxPx fb).filter (fun p => lab p == k + 1)).any (fun p => sky (probeOf px py org fb p)) =
+      ((boxPx fb).filter (fun p => lab p == k + 1)).any (fun p => sky ((p.2 : Int), (p.1 : Int))) := by
+    apply any_congr_mem
+    intro p hp
+    rw [probeOf_eq hx hy (List.mem_filter.1 hp).1]
+  simp only [islandIn, regionOK, e]
+  first | rfl | (split <;> rfl)
+
 end Aegean.Proofs.C11
